@@ -188,13 +188,17 @@ Lemma tables_parts T : limit_tables_ok T = true →
   (∀ t, t ∈ six → assoc (t_gatemap T) t = Some (base_op t)) ∧ (∀ p, p ∈ t_gatemap T → p.1 ∈ six) ∧
   t_helper T = Buf ∧ t_in_min T = 2 ∧ t_out_min T = 2.
 Proof.
-  unfold limit_tables_ok. rewrite !andb_true_iff. intros (((((H1 & H2) & _) & H4) & H5) & H6).
+  unfold limit_tables_ok. rewrite !andb_true_iff. intros (((((((H1 & H2) & _) & H4) & H5) & H6) & _) & _).
   rewrite forallb_forall in H1, H2. split; [|split; [|split; [|split]]].
   - intros t Ht. apply elem_of_list_In in Ht. apply H1 in Ht. by apply bool_decide_eq_true in Ht.
   - intros p Hp. apply elem_of_list_In in Hp. apply H2 in Hp. by apply bool_decide_eq_true in Hp.
   - by apply bool_decide_eq_true in H4.
   - by apply Nat.eqb_eq in H5.
   - by apply Nat.eqb_eq in H6.
+Qed.
+Lemma tables_suffix T : limit_tables_ok T = true → has_dot (t_in_suffix T) = false ∧ has_dot (t_out_suffix T) = false.
+Proof.
+  unfold limit_tables_ok. rewrite !andb_true_iff, !negb_true_iff. tauto.
 Qed.
 Lemma tables_gatemap T t t' : limit_tables_ok T = true → assoc (t_gatemap T) t = Some t' → t ∈ six ∧ t' = base_op t.
 Proof.
@@ -217,7 +221,8 @@ Definition regrouped (c : circuit) (n : string) (inf : ninfo) (t' : gtype) (m f0
 
 Lemma fanin_step_inv T c k n f0 f1 i c' : fanin_step T c k n f0 f1 i = Ok c' →
   ∃ inf t' m, c !! n = Some inf ∧ k < size (n_fi inf) ∧ f0 ≠ f1 ∧ f0 ∈ n_fi inf ∧ f1 ∈ n_fi inf ∧
-    assoc (t_gatemap T) (n_ty inf) = Some t' ∧ m ∉ dom c ∧ c' = regrouped c n inf t' m f0 f1.
+    assoc (t_gatemap T) (n_ty inf) = Some t' ∧ m ∉ dom c ∧ m = uid c (n ++ t_in_suffix T ++ pretty i) ∧
+    ty c f0 ≠ Some BbOut ∧ ty c f1 ≠ Some BbOut ∧ c' = regrouped c n inf t' m f0 f1.
 Proof.
   unfold fanin_step. destruct (c !! n) as [inf|]; [|done].
   destruct (k <? size (n_fi inf))%nat eqn:Hk; [|done]. simpl.
@@ -226,12 +231,16 @@ Proof.
   destruct (assoc (t_gatemap T) (n_ty inf)) as [t'|] eqn:Ha; [|done].
   destruct (is_multi t'); [|done]. simpl. destruct (starts_digit _); [done|].
   top_if; [done|]. intros [= <-].
+  match goal with H : _ || (_ || false) = false |- _ => rename H into He end.
+  rewrite !orb_false_iff in He. destruct He as (Eb0 & Eb1 & _).
   exists inf, t', (uid c (n ++ t_in_suffix T ++ pretty i)). split_and!; try done.
   - by apply Nat.ltb_lt.
   - by apply bool_decide_eq_false in E1.
   - by apply bool_decide_eq_true in E2.
   - by apply bool_decide_eq_true in E3.
   - apply uid_fresh.
+  - intros Hty. by rewrite Hty in Eb0.
+  - intros Hty. by rewrite Hty in Eb1.
 Qed.
 
 Lemma regrouped_spec c n inf m f0 f1 : closed c → c !! n = Some inf → f0 ≠ f1 → f0 ∈ n_fi inf → f1 ∈ n_fi inf →
@@ -310,7 +319,7 @@ Proof.
     by apply elem_of_list_In, elem_of_map_to_list.
   - destruct (next_index st n) as [[i st']|]; [|done].
     destruct (fanin_step T c k n f0 f1 i) as [c1| | |] eqn:Hs; try done. simpl. intros Hrest.
-    apply fanin_step_inv in Hs as (inf & t' & m & Hn & Hk & Hne & H0 & H1 & Ha & Hm & ->).
+    apply fanin_step_inv in Hs as (inf & t' & m & Hn & Hk & Hne & H0 & H1 & Ha & Hm & _ & _ & _ & ->).
     destruct (tables_gatemap _ _ _ HT Ha) as [Hsix ->].
     destruct (regrouped_spec c n inf m f0 f1 Hcl Hn Hne H0 H1 Hm Hsix) as (Hcl1 & Hat & Heq).
     destruct (IH _ _ _ _ Hcl1 Hrest) as (Hcl' & Hd & Hi & Ho & Heq' & Hb).
@@ -342,13 +351,14 @@ Definition buffered (c : circuit) (n m : string) (h : gtype) (L : gset string) :
 
 Lemma fanout_step_inv T c k n f0 f1 i c' : fanout_step T c k n f0 f1 i = Ok c' →
   ∃ m, n ∈ dom c ∧ k < size (fanout c n) ∧ f0 ≠ f1 ∧ f0 ∈ fanout c n ∧ f1 ∈ fanout c n ∧ m ∉ dom c ∧
+       m = uid c (n ++ t_out_suffix T ++ pretty i) ∧ ty c n ≠ Some BbOut ∧
        c' = buffered c n m (t_helper T) {[f0; f1]}.
 Proof.
   unfold fanout_step. destruct (c !! n) as [inf|] eqn:Hn; [|done]. cbv zeta.
   destruct (k <? size (fanout c n))%nat eqn:Hk; [|done]. cbn [negb].
   destruct (bool_decide (f0 = f1)) eqn:E1; [done|]. destruct (bool_decide (f0 ∈ fanout c n)) eqn:E2; [|done].
   destruct (bool_decide (f1 ∈ fanout c n)) eqn:E3; [|done]. cbn [negb orb].
-  do 4 (top_if; [done|]). intros [= <-].
+  do 3 (top_if; [done|]). destruct (is_in (Some (n_ty inf)) [BbIn; BbOut]) eqn:Eb; [done|]. intros [= <-].
   exists (uid c (n ++ t_out_suffix T ++ pretty i)). split_and!; try done.
   - apply elem_of_dom. eauto.
   - by apply Nat.ltb_lt.
@@ -356,6 +366,7 @@ Proof.
   - by apply bool_decide_eq_true in E2.
   - by apply bool_decide_eq_true in E3.
   - apply uid_fresh.
+  - unfold ty. rewrite Hn. simpl. intros [= Hty]. by rewrite Hty in Eb.
 Qed.
 
 Lemma node_ok_buf v m o n : node_ok v m (mk_node Buf o {[n]}) ↔ v m = v n.
@@ -411,7 +422,7 @@ Proof.
       apply Hn. by eapply Hcl.
   - destruct (next_index st n) as [[i st']|]; [|done].
     destruct (fanout_step T c k n f0 f1 i) as [c1| | |] eqn:Hs; try done. simpl. intros Hrest.
-    apply fanout_step_inv in Hs as (m & Hn & Hk & Hne & H0 & H1 & Hm & ->).
+    apply fanout_step_inv in Hs as (m & Hn & Hk & Hne & H0 & H1 & Hm & _ & _ & ->).
     destruct (tables_parts T HT) as (_ & _ & Hh & _). rewrite Hh in Hrest.
     destruct (buffered_spec c n m {[f0; f1]} Hcl Hn Hm) as (Hcl1 & Hat & Heq); [set_solver|].
     destruct (IH _ _ _ _ Hcl1 Hrest) as (Hcl' & Hd & Hi & Ho & Heq' & Hb).
